@@ -46,6 +46,8 @@ def formulas(tier):
         "y ~ f/g", "y ~ f/x", "y ~ g/f/x", "y ~ f:(g + x)", "y ~ (f + g)**2", "y ~ 0 + (f + g)**2", "y ~ f*g*x", "y ~ (f + g):x", "y ~ (f + g)*x", "y ~ 0 + f*g", "y ~ center(x)/f", "y ~ (x + f|g) + f/x",
         # several dummy columns written before a multi-column numeric; group terms of two factors interleaved
         "y ~ g:poly(x, 2, raw=True)", "y ~ 0 + f:poly(x, 2, raw=True)", "y ~ (1|g) + (1|h) + (0 + x|g)", "y ~ (x|g + h)", "y ~ (0 + g:poly(x, 2, raw=True)|f)",
+        # numeric columns used as grouping factors (ids, years)
+        "y ~ (1|k)", "y ~ (x|kb)", "y ~ (1|k:f)", "y ~ (1|kf)",
     ]
     if tier != "quick":
         f += ["y ~ x*f*g", "y ~ center(x)*f", "y ~ scale(x) + scale(z) + scale(x):scale(z)", "y ~ poly(x, 4, raw=True) + poly(z, 2, raw=True)",
@@ -130,7 +132,7 @@ def harness(env, case):
     if dm.group is not None:
         mats.append(("group", dm.group))
     for what, M in mats:
-        X = np.asarray(M.design_matrix)
+        X = np.array(M.design_matrix, copy=True)  # a snapshot, not a view
         slices0 = dict(M.slices)
         for tag, idx in selections(rows, vars_, tier):
             nd = df.iloc[idx]
@@ -149,6 +151,22 @@ def harness(env, case):
             env.prove(dict(new.slices) == slices0, f"{what}: slices unchanged")
         # training matrix itself untouched by the evaluations
         env.prove_equal(M.design_matrix, X, f"{what}: training matrix unchanged")
+        # ... and a result is the caller's to overwrite, whichever frame object it came from (the caller's own
+        # frame or the one the design keeps)
+        for src, frame in (("caller frame", df), ("the frame the design keeps", getattr(M, "data", None))):
+            if frame is None or len(frame) != len(df):
+                continue
+            try:
+                with env.running(not concrete):
+                    again = M.evaluate_new_data(frame)
+            except symx.PathEnd:
+                raise
+            except Exception:  # noqa -- evaluation failures are reported above
+                continue
+            A = again.design_matrix
+            if isinstance(A, np.ndarray) and A.size and A.flags.writeable:
+                A[...] = 0
+                env.prove_equal(M.design_matrix, X, f"{what}: training matrix unchanged after the caller overwrote a result")
     if concrete and "bs(" in formula:
         # Python-side spline state: fitted knots survive evaluate_new_data
         for term in list(dm.common.terms.values() if dm.common else []) + [t.expr for t in (dm.group.terms.values() if dm.group else [])]:
